@@ -661,8 +661,25 @@ fn covered_field(k: usize, res: &mut CaseResult) -> Option<(String, Value)> {
     let mut scheds: Vec<Sched> = (0..4).map(Sched::natural).collect();
     scheds.push(Sched::adversarial(1, 1000, storage_layout_extractor::verif::MENU_REVERSE));
     scheds.push(Sched::adversarial(2, 1000, storage_layout_extractor::verif::MENU_ALL));
+    // The reference: the same pieces stated about the field directly (the
+    // two halves as a packed encoding of the field itself, plus the words),
+    // so that everything about the field meets in one fold.
+    let mut direct = vec![(3usize, Ev::Packed { spans: vec![(1, 0, 16), (2, 16, 16)], is_struct: false }), (3, e1.clone())];
+    if let Some(e2) = &e2 {
+        direct.push((3, e2.clone()));
+    }
+    let direct = EvidenceSet { n_vars: 5, judgements: direct };
     let mut seen: BTreeSet<String> = BTreeSet::new();
     let mut by_delivery: Vec<Value> = Vec::new();
+    {
+        let o = run_unify(&direct, &Sched::natural(0), &UnifyOpts::default());
+        res.runs += 1;
+        res.steps += o.polls;
+        let out = format!("field {}", show(&o, 3));
+        by_delivery.push(json!({"delivery": "stated about the field directly", "schedule": "natural(0)", "outcome": out}));
+        seen.insert(out);
+    }
+    let mut seen_word: BTreeSet<String> = BTreeSet::new();
     for (label, ev) in &deliveries {
         for sched in &scheds {
             let o = run_unify(ev, sched, &UnifyOpts::default());
@@ -670,15 +687,21 @@ fn covered_field(k: usize, res: &mut CaseResult) -> Option<(String, Value)> {
             res.steps += o.polls;
             res.fold_orders.push(o.record.fold_digest);
             res.fault("field_refined_by_a_later_round");
-            let out = format!("field {} | word {}", show(&o, 3), show(&o, 0));
-            if seen.insert(out.clone()) {
-                by_delivery.push(json!({"delivery": label, "schedule": sched.label(), "outcome": out}));
+            let out = format!("field {}", show(&o, 3));
+            let word = format!("word {}", show(&o, 0));
+            let new_word = seen_word.insert(word.clone());
+            if seen.insert(out.clone()) || new_word {
+                by_delivery.push(json!({"delivery": label, "schedule": sched.label(), "outcome": format!("{out} | {word}")}));
             }
         }
     }
-    if seen.len() <= 1 {
+    if std::env::var_os("SLX_DEBUG").is_some() {
+        eprintln!("debug: covered-field {k}: {seen:?} {seen_word:?}");
+    }
+    if seen.len() <= 1 && seen_word.len() <= 1 {
         return None;
     }
+    seen.extend(seen_word);
     let mut kinds = vec![e1.kind()];
     if let Some(e2) = &e2 {
         kinds.push(e2.kind());
